@@ -125,10 +125,14 @@ def bool_cmp(ctx, op, a, b, tag="b"):
     return Scalar(s)
 
 
-def bool_top(ctx, tag="b", when=None):
+def bool_top(ctx, tag="b", when=None, exact=False):
+    """An unknown boolean.  exact=True: the model is exact and the outcome is genuinely open (observers that count
+    imprecise steps of the interpreter are not told)."""
     s = ctx.fresh(tag, (0, 1))
     if when:
         ctx.S.when[s] = when
+    if not exact:
+        ctx.inexact = "unknown boolean"
     return Scalar(s)
 
 
@@ -189,6 +193,9 @@ def first_last(ctx, from_end):
             return none()
         return some(Ref(ref.cell, ref.path + (("ci", 1 if from_end else 0, 1, from_end),), ref.mut) if ref is not None and ref.cell is not None else Ref(None))
     er = elem_ref(ref)
+    if not from_end and isinstance(v, Seq) and ref is not None and ref.cell is not None and not ref.mut:
+        # `first()` is element 0, not just "some element": read through the element memo like `s[0]` / `[x, ..]`
+        er = Ref(ref.cell, tuple(ref.path) + (("ci", 0, 1, False),), False)
     iv = S.ivof(ln)
     if D.hi(iv) == 0:
         return none()
@@ -523,7 +530,7 @@ def m_opaque_eq(ctx):
     ne = ctx.r["def"].endswith("::ne")
     if len(ctx.args) == 2:
         def through(v, tag):
-            for n in range(3):
+            for n in range(5):
                 if isinstance(v, Ref) and v.cell is not None:
                     v = ctx.deref(v, tag + str(n))
                 else:
@@ -539,6 +546,24 @@ def m_opaque_eq(ctx):
                     if vname not in x.variants:
                         return Scalar(ctx.I.const_sym(1 if ne else 0, (0, 1), S))
                     d = x.when.get(vname)
+                    # one scalar payload on both sides: equal values have equal payloads
+                    px, py = x.variants[vname], y.variants[vname]
+                    if len(px) == 1 and len(py) == 1:
+                        sx_, sy_ = through(px[0], "eqpx"), through(py[0], "eqpy")
+                        if isinstance(sx_, Scalar) and isinstance(sy_, Scalar):
+                            ivy = S.ivof(sy_.sym)
+                            if D.is_point(ivy):
+                                T = S.copy()
+                                if d is not None:
+                                    T.apply_delta(d)
+                                if not T.dead and not D.contains(T.ivof(sx_.sym), D.lo(ivy)):
+                                    return Scalar(ctx.I.const_sym(1 if ne else 0, (0, 1), S))
+                                if len(x.variants) == 1 and T.ivof(sx_.sym) == ivy:
+                                    return Scalar(ctx.I.const_sym(0 if ne else 1, (0, 1), S))
+                                iv_ = dict(d.iv) if d is not None else {}
+                                iv_[sx_.sym] = ivy
+                                dd = Delta(iv_, d.facts if d is not None else (), d.gen if d is not None else None)
+                                return bool_top(ctx, when={(0 if ne else 1): dd}, exact=True)
                     if d is not None:
                         return bool_top(ctx, when={(0 if ne else 1): d})
                     break
@@ -549,7 +574,24 @@ def m_opaque_eq(ctx):
                 return Scalar(ctx.I.const_sym(1 if ne else 0, (0, 1), S))
             if r is True and S.eval(la) == D.point(0):
                 return Scalar(ctx.I.const_sym(0 if ne else 1, (0, 1), S))
+            # a constant against a string whose first byte is known to differ from the constant's first byte
+            for (x, xr), y in (((qa, ctx.args[0]), qb), ((qb, ctx.args[1]), qa)):
+                if isinstance(y, Seq) and y.data and isinstance(x, Seq) and x.data is None:
+                    r0 = xr
+                    for n_ in range(5):
+                        nx = ctx.deref(r0, "eqr%d" % n_) if isinstance(r0, Ref) and r0.cell is not None else None
+                        if isinstance(nx, Ref):
+                            r0 = nx
+                        else:
+                            break
+                    if isinstance(r0, Ref) and r0.cell is not None and D.lo(S.ivof(len_sym(ctx, x))) >= 1:
+                        hit = S.emem.get((r0.cell, ctx.I.memo_path(tuple(r0.path) + (("ci", 0, 1, False),))))
+                        if hit is not None and hit[0] is x and isinstance(hit[1], Scalar) and not D.contains(S.ivof(hit[1].sym), y.data[0]):
+                            return Scalar(ctx.I.const_sym(1 if ne else 0, (0, 1), S))
             d = la.sub(lb)
+            if any(isinstance(q_, Seq) and q_.data is not None for q_ in (qa, qb)):
+                same = Delta({}, [d, d.scale(-1)])
+                return bool_top(ctx, when={(0 if ne else 1): same}, exact=True)  # comparison with a literal: open, exactly so
             same = Delta({}, [d, d.scale(-1)])
             return bool_top(ctx, when={(0 if ne else 1): same})
     return bool_top(ctx)
